@@ -182,7 +182,7 @@ class Sim:
             self.nodes[n["name"]] = w.StorageNode.create(
                 name=n["name"], group=self.groups[n["group"]], root=str(root) + n.get("root_suffix", ""), host=n["host"], active=n.get("active", True),
                 storage_type=n["stype"], io_class=n.get("io_class"), min_avail_gb=n.get("min_avail_gb", 0), max_total_gb=n.get("max_total_gb"),
-                auto_verify=n.get("auto_verify", 0), username=n.get("username"), address=n.get("address"))
+                auto_verify=n.get("auto_verify", 0), username=n.get("username"), address=n.get("address"), auto_import=n.get("auto_import", False))
         (self.base / "outside").mkdir(exist_ok=True)
         (self.base / "outside" / "precious").write_text("do not touch")
         self.acqs = {a: w.mkacq(a) for a in spec["acqs"]}
